@@ -2214,7 +2214,14 @@ void do_resize_cb(struct urcu_work *work)
 	struct cds_lfht *ht = resize_work->ht;
 
 	ht->flavor->register_thread();
+	/*
+	 * Wait for the resize mutex with this worker thread offline (QSBR):
+	 * the holder of the mutex uses synchronize_rcu, which would
+	 * otherwise wait for this thread (see rculfhash-internal.h).
+	 */
+	ht->flavor->thread_offline();
 	mutex_lock(&ht->resize_mutex);
+	ht->flavor->thread_online();
 	_do_cds_lfht_resize(ht);
 	mutex_unlock(&ht->resize_mutex);
 	ht->flavor->unregister_thread();
